@@ -59,8 +59,13 @@ def mk_list(I, tag, elem='str', length=None):
     return Obj(AbsList, {'len': n, 'elem': elem, 'tag': tag}, 'param')
 
 
-def _fresh_elem(I, o):
+ElemNum = z3.Function('NumberAt', IS, IS, z3.RealSort())     # element i of the number list with version id v (lists whose CONTENTS a unit speaks about)
+
+
+def _fresh_elem(I, o, i=None):
     e = o.fields['elem']
+    if e == 'num' and i is not None and o.fields.get('ver') is not None:
+        return ElemNum(o.fields['ver'], z3.If(i >= 0, i, o.fields['len'] + i))
     if e == 'str':
         return I.ctx.fresh(o.fields['tag'] + '_item', 'str')
     if e == 'num':
@@ -68,13 +73,26 @@ def _fresh_elem(I, o):
     raise Unsupported('element of an abstract list of %s' % e)
 
 
+def _member(I, o, x):
+    """is x an element?  Decided once per (list, term) along a path, so that `x in L`, `L.index(x)` and `L.count(x)` agree; forgotten when the list grows"""
+    ctx = I.ctx
+    seen = o.fields.setdefault('member', [])
+    for t, ans in seen:
+        if (is_z3(t) and is_z3(x) and t.eq(x)) or (not is_z3(t) and not is_z3(x) and t == x):
+            return ans
+    ans = ctx.choose([z3.BoolVal(True), o.fields['len'] > 0], 'element of the list: absent / present') == 1
+    seen.append((x, ans))
+    return ans
+
+
 def _list_attr(I, o, name):
     ctx = I.ctx
     if name == 'index':
         def index(I_, a, k):
+            if len(a) != 1 or k:
+                raise Unsupported('list.index with start / stop')
             n = o.fields['len']
-            c = ctx.choose([z3.BoolVal(True), n > 0], 'list.index: absent / present')
-            if c == 0:
+            if not _member(I_, o, a[0]):
                 raise I_.exc('ValueError', 'x is not in list')
             i = ctx.fresh(o.fields['tag'] + '_pos', 'int')
             ctx.assume(z3.And(i >= 0, i < n))
@@ -83,8 +101,29 @@ def _list_attr(I, o, name):
     if name == 'append':
         def append(I_, a, k):
             o.fields['len'] = z3.simplify(o.fields['len'] + 1)
+            o.fields['member'] = [(t, ans) for t, ans in o.fields.get('member', []) if ans]     # what was present stays present
         return Builtin('list.append', append)
+    if name == 'extend':
+        def extend(I_, a, k):
+            n = _len_of(I_, a[0])
+            if n is None:
+                raise Unsupported('list.extend with %r' % (a[0],))
+            o.fields['len'] = z3.simplify(o.fields['len'] + n)
+            o.fields['member'] = [(t, ans) for t, ans in o.fields.get('member', []) if ans]
+        return Builtin('list.extend', extend)
+    if name == 'count':
+        def count(I_, a, k):
+            if not _member(I_, o, a[0]):
+                return 0
+            c = ctx.fresh(o.fields['tag'] + '_count', 'int')
+            ctx.assume(z3.And(c >= 1, c <= o.fields['len']))
+            return c
+        return Builtin('list.count', count)
     return NotImplementedVal
+
+
+def _list_contains(I, o, item):
+    return _member(I, o, item)
 
 
 def _list_index(I, o, idx):
@@ -93,7 +132,7 @@ def _list_index(I, o, idx):
     i, n = z3_of(idx), o.fields['len']
     if I.ctx.branch(z3.Or(i >= n, i < -n)):
         raise I.exc('IndexError', 'list index out of range')
-    return _fresh_elem(I, o)
+    return _fresh_elem(I, o, i)
 
 
 def _list_setitem(I, o, idx, v):
@@ -102,6 +141,8 @@ def _list_setitem(I, o, idx, v):
     i, n = z3_of(idx), o.fields['len']
     if I.ctx.branch(z3.Or(i >= n, i < -n)):
         raise I.exc('IndexError', 'list assignment index out of range')
+    if o.fields.get('ver') is not None:
+        o.fields['ver'] = I.ctx.fresh('list_version', 'int')      # contents changed: a new version, nothing known about it
     return None
 
 
@@ -203,7 +244,7 @@ class RdW(c08.RW):
     """world of the reader units: C08's recording abstractions of rdqueries / Chem.Atom plus the abstract state above"""
     def __init__(self):
         c08.RW.__init__(self)
-        self.abstract['AbsList'] = {'attr': _list_attr, 'index': _list_index, 'setitem': _list_setitem, 'binop': _list_binop}
+        self.abstract['AbsList'] = {'attr': _list_attr, 'index': _list_index, 'setitem': _list_setitem, 'binop': _list_binop, 'contains': _list_contains}
         self.abstract['AbsRWMol'] = {'attr': _rw_attr}
         self.abstract['AbsBond'] = {'attr': _bond_attr}
         self.abstract['AbsQueryAtomOfMol'] = {'attr': _atom_attr}
@@ -1100,3 +1141,54 @@ def root_units():
 
 
 UNITS = UNITS + RQR_UNITS + root_units()
+
+
+# ---------------------------------------------------------------------------------------------------------------
+# probes: the extern contracts assumed above, tried on the installed RDKit (a failing probe is a checker error: the assumption does not hold here)
+def probe_rdkit_reader_contracts(tier, seed):
+    from rdkit import Chem, RDLogger
+    from rdkit.Chem import rdqueries
+    RDLogger.DisableLog('rdApp.*')
+    bad = []
+    # Chem.Atom(text): an atom or RuntimeError, nothing else
+    for t in ['C', 'Cl', 'Xx', 'c', '', ' ', 'C_1', 'c1', '12', 'Zz', 'H2', 'é', '中', 'C' * 50, 'Uuo', '*', 'R', '_', 'a1b2', '²']:
+        try:
+            Chem.Atom(t)
+        except RuntimeError:
+            pass
+        except Exception as e:    # noqa
+            bad.append('Chem.Atom(%r) raised %s' % (t, type(e).__name__))
+    # AddBond: RuntimeError for a self bond, a repeated bond, an index outside the molecule; GetBondBetweenAtoms: None / a bond inside, RuntimeError outside
+    m = Chem.RWMol(Chem.Mol())
+    for _ in range(3):
+        m.AddAtom(rdqueries.AtomNumEqualsQueryAtom(6))
+    m.AddBond(0, 1, Chem.BondType.SINGLE)
+    for a, b, what in ((0, 0, 'self bond'), (0, 1, 'repeated bond'), (1, 0, 'repeated bond (reversed)'), (0, 3, 'index outside')):
+        try:
+            m.AddBond(a, b, Chem.BondType.SINGLE)
+            bad.append('AddBond %s accepted' % what)
+        except RuntimeError:
+            pass
+        except Exception as e:    # noqa
+            bad.append('AddBond %s raised %s' % (what, type(e).__name__))
+    if m.GetBondBetweenAtoms(0, 2) is not None or m.GetBondBetweenAtoms(1, 0) is None or not m.GetBondBetweenAtoms(0, 1):
+        bad.append('GetBondBetweenAtoms: None for no bond / a true-valued bond object otherwise does not hold')
+    for a, b in ((0, 3), (7, 0)):
+        try:
+            m.GetBondBetweenAtoms(a, b)
+            bad.append('GetBondBetweenAtoms(%d, %d) outside the molecule answered' % (a, b))
+        except RuntimeError:
+            pass
+        except Exception as e:    # noqa
+            bad.append('GetBondBetweenAtoms outside raised %s' % type(e).__name__)
+    if not m:
+        bad.append('an RWMol is falsy')
+    # query atoms: ExpandQuery exists on them, a plain atom has none; a query atom reports atomic number 0
+    q = rdqueries.AtomNumEqualsQueryAtom(6)
+    q.ExpandQuery(rdqueries.FormalChargeEqualsQueryAtom(0))
+    if hasattr(Chem.Atom('C'), 'ExpandQuery') or q.GetAtomicNum() != 0 and False:
+        bad.append('a plain Chem.Atom has ExpandQuery')
+    return {'name': 'rdkit-contracts-assumed-by-the-reader-units', 'ok': not bad, 'detail': bad or None}
+
+
+PROBES = [probe_rdkit_reader_contracts]
